@@ -43,6 +43,17 @@ enum Case {
     CiFrom { s: String },
 }
 impl Case {
+    fn op_index(&self) -> usize {
+        match self {
+            Case::Normalize { .. } => 0,
+            Case::Merge { .. } => 1,
+            Case::Widen { .. } => 2,
+            Case::Append { .. } => 3,
+            Case::CiMerge { .. } => 4,
+            Case::CiAppend { .. } => 5,
+            Case::CiFrom { .. } => 6,
+        }
+    }
     fn op(&self) -> &'static str {
         match self {
             Case::Normalize { .. } => "BricksDomain::normalize",
@@ -517,13 +528,14 @@ fn run_batch(slot: &mut Option<Worker>, cpu_ms: u64, lines: &[String]) -> Vec<Re
 /// CPU limit per case in the sweep workers (a case needs microseconds) and in the confirmation run.
 const CPU_MS_SWEEP: u64 = 3;
 const CPU_MS_CONFIRM: u64 = 1500;
-/// How many non-terminations are confirmed by re-running the case alone with the long limit.
-const MAX_CONFIRMATIONS: u64 = 24;
+/// How many non-terminations *per operation* are confirmed by re-running the case alone with the
+/// long limit (suspects of an operation with fewer confirmed non-terminations are always re-run).
+const MAX_CONFIRMATIONS: u64 = 16;
 
 struct Explorer<'a> {
     ctx: &'a Ctx,
-    /// confirmed non-terminations so far
-    confirmed: AtomicU64,
+    /// confirmed non-terminations so far, per operation
+    confirmed: [AtomicU64; 7],
     /// killed in a sweep but not re-run (only after MAX_CONFIRMATIONS confirmed ones)
     unjudged: AtomicU64,
     kills: AtomicU64,
@@ -551,7 +563,7 @@ impl<'a> Explorer<'a> {
             }
             Res::Hang(used_us) => {
                 if confirmed_run {
-                    self.confirmed.fetch_add(1, Ordering::Relaxed);
+                    self.confirmed[case.op_index()].fetch_add(1, Ordering::Relaxed);
                     ctx.add_transitions(1);
                     ctx.outcome(&("nontermination", case.op()));
                     ctx.stat("nontermination confirmed (re-run alone with the long CPU limit)", 1);
@@ -559,7 +571,7 @@ impl<'a> Explorer<'a> {
                     return;
                 }
                 self.kills.fetch_add(1, Ordering::Relaxed);
-                if self.confirmed.load(Ordering::Relaxed) < MAX_CONFIRMATIONS {
+                if self.confirmed[case.op_index()].load(Ordering::Relaxed) < MAX_CONFIRMATIONS {
                     let line = serde_json::to_string(case).unwrap();
                     let mut slot = None;
                     let r = run_batch(&mut slot, CPU_MS_CONFIRM, &[line]).pop().unwrap();
@@ -569,7 +581,7 @@ impl<'a> Explorer<'a> {
                     self.fold(case, r, true);
                 } else {
                     self.unjudged.fetch_add(1, Ordering::Relaxed);
-                    ctx.stat(&format!("stopped after {CPU_MS_SWEEP} ms CPU and not re-run ({MAX_CONFIRMATIONS} non-terminations were already confirmed): {}", case.op()), 1);
+                    ctx.stat(&format!("stopped after {CPU_MS_SWEEP} ms CPU and not re-run ({MAX_CONFIRMATIONS} non-terminations of this operation were already confirmed): {}", case.op()), 1);
                 }
             }
             Res::Killed(SIGKILL) => mcx::machinery("a worker was killed by SIGKILL (out of memory?)"),
@@ -661,7 +673,7 @@ fn main() {
         Err(e) => mcx::machinery(&e),
     }
     let th = ctx.thorough();
-    let ex = Explorer { ctx: &ctx, confirmed: AtomicU64::new(0), unjudged: AtomicU64::new(0), kills: AtomicU64::new(0), kill_budget: if th { 40_000 } else { 15_000 } };
+    let ex = Explorer { ctx: &ctx, confirmed: std::array::from_fn(|_| AtomicU64::new(0)), unjudged: AtomicU64::new(0), kills: AtomicU64::new(0), kill_budget: if th { 40_000 } else { 15_000 } };
     if let Some(c) = ctx.replay_case() {
         let case: Case = serde_json::from_value(c.clone()).unwrap_or_else(|e| mcx::machinery(&format!("bad case: {e}")));
         let mut slot = None;
@@ -708,7 +720,7 @@ fn main() {
     ctx.stat("calls stopped by the CPU limit of the sweep", ex.kills.load(Ordering::Relaxed));
     let unj = ex.unjudged.load(Ordering::Relaxed);
     if unj > 0 {
-        ctx.cap_hit(&format!("{unj} calls were stopped by the {CPU_MS_SWEEP} ms CPU limit of the sweep and not re-run with the long limit, because {MAX_CONFIRMATIONS} non-terminations had already been confirmed; these cases have no verdict"));
+        ctx.cap_hit(&format!("{unj} calls were stopped by the {CPU_MS_SWEEP} ms CPU limit of the sweep and not re-run with the long limit, because {MAX_CONFIRMATIONS} non-terminations of the same operation had already been confirmed; these cases have no verdict"));
     }
     ctx.set(
         "bounds",
